@@ -235,11 +235,12 @@ def covering_array(rng):
     rows = []
     while todo:
         best, bestn = None, -1
+        target = min(todo, key=repr)          # deterministic choice (set order depends on the process' hash seed)
         for _ in range(80):
             fv = random_vector(rng)
             # steer half of the candidates through a still uncovered pair
             if todo and rng.chance(0.5):
-                f, a, g, b = next(iter(todo))
+                f, a, g, b = target
                 fv2 = dict(fv); fv2[f] = a; fv2[g] = b
                 if fv2["collision"] == "none":
                     fv2["resolve"] = "-"
@@ -250,7 +251,7 @@ def covering_array(rng):
                 best, bestn = fv, n
         if bestn <= 0:
             # a pair that no admissible vector contains: report it as uncoverable rather than loop
-            f, a, g, b = next(iter(todo))
+            f, a, g, b = target
             todo.discard((f, a, g, b))
             rows.append(None)
             continue
@@ -655,6 +656,18 @@ def check_walk(cfg, sim, parts, out, where, step):
     A = (ctypes.c_double * (3 * n + 3))()
     if _lib.c15_acc(ctypes.byref(sim), A, n + 1) != n:
         return
+    # ---- tie of the force walk itself: the run's own opening angle (monopoles of unopened cells included), bitwise
+    if sim.N_ghost_x == 0 and sim.N_ghost_y == 0 and sim.N_ghost_z == 0 and not any(f18_class(cfg, p) for p in parts):
+        _clib.reb_calculate_acceleration(ctypes.byref(sim))
+        B = (ctypes.c_double * (3 * n + 3))()
+        if _lib.c15_acc(ctypes.byref(sim), B, n + 1) == n:
+            toks = ["acc", ROOT_RULE[0], cfg["rs"], str(cfg["nx"]), str(cfg["ny"]), str(cfg["nz"]), str(FUEL_TREE),
+                    d2h(sim.G), d2h(sim.softening), d2h(sim.opening_angle2), str(n)]
+            for p in parts:
+                toks += [d2h(p["x"]), d2h(p["y"]), d2h(p["z"]), d2h(p["m"])]
+            out.lines.append((" ".join(toks), "ok " + " ".join(d2h(B[k]) for k in range(3 * n)),
+                              dict(where="tree gravity: accelerations of all particles", N=n, exact=True)))
+            out.inc("dim:tree_gravity_force_tie:theta2=%g" % sim.opening_angle2)
     G = sim.G
     s2 = sim.softening ** 2
     out.inc("walk_checks")
@@ -1383,7 +1396,8 @@ def run_entry(job, out):
     sim.update_tree(); used += ["reb_simulation_update_tree", "py:update_tree"]; oracle(sim, "update_tree", False)
     n0 = sim.N
     sim.remove(index=3, keep_sorted=False); used += ["reb_simulation_remove_particle", "py:remove"]
-    sim.remove(hash=2, keep_sorted=False); used.append("reb_simulation_remove_particle_by_hash")
+    other = get_parts(sim)[5]["h"]                 # a different particle (the array order has changed by now)
+    sim.remove(hash=ctypes.c_uint32(other), keep_sorted=False); used.append("reb_simulation_remove_particle_by_hash")
     oracle(sim, "remove (index, hash) + update", True)
     if sim.N != n0 - 2:
         out.viol.append(("entry-remove", "two removals on a simulation with a tree left N=%d (was %d)" % (sim.N, n0), dict(entry="remove")))
@@ -1803,6 +1817,8 @@ def compare_batch(c, exe, lines, expect, meta, st):
                     c.log("DEBUG nbit", m, pos, gt[max(0, pos - 14):pos + 3], et[max(0, pos - 14):pos + 3])
                 continue
             st["nd"] += 1
+            if os.environ.get("C15_DEBUG"):
+                json.dump(dict(line=l, model=g, impl=e, meta=m), open("/tmp/c15dbg_%d.json" % st["nd"], "w"))
             if st["first"] is None:
                 gt, et = g.split(), e.split()
                 pos = next((i for i, (a, b) in enumerate(zip(gt, et)) if a != b), min(len(gt), len(et)))
@@ -1910,6 +1926,7 @@ REQUIRED_DIMENSIONS = [
     "probe:x=+inf periodic", "probe:x=-inf shear", "probe:x=nan periodic", "probe:variational+collision tree",
     "probe:whfast+open+tree", "probe:refused add + tree update",
     "update_walk:scramble",
+    "tree_gravity_force_tie:theta2=0", "tree_gravity_force_tie:theta2=0.25", "tree_gravity_force_tie:theta2=1",
 ]
 
 
